@@ -27,7 +27,7 @@ RULE = (
     "xmax x {1, 1.0000001, 1.5, 2, 10, 100}, scalar and per-column vmax 100..2000, min_transfer 1..50) biased towards "
     "steep series in which several columns are diluted from the same source column and (5 %) towards flat series from a "
     "strong stock with coarsely rounded stock transfers, must-refuse parameter sets (stock < "
-    "xmax, vmax of wrong length, invalid mode), and for one case in 10 (quick) / 14 (thorough) an execution configuration (device, integer "
+    "xmax, vmax of wrong length, invalid mode), and for one case in 10 (quick) / 15 (thorough) an execution configuration (device, integer "
     "and non-integer worklist max_volume, trough shapes with fewer virtual rows than R and non-zero columns, larger "
     "plates, optional destination plate, mixing parameters, pre/post hooks); a case is non-trivial when a plan with at "
     "least one serial-dilution column (dilution_steps >= 1) is returned; distinct = distinct parameter/configuration hashes"
@@ -44,8 +44,8 @@ ASSUMPTIONS = [
 
 D11 = "C14.plan_overdraw"
 
-EXEC_EVERY = {"quick": 10, "thorough": 14}  # one case in n (at random) carries an execution configuration
-EXEC_MAX_WELLS = {"quick": 32, "thorough": 64}  # R*C of executed plans (R <= 8, C <= 12)
+EXEC_EVERY = {"quick": 10, "thorough": 15}  # one case in n (at random) carries an execution configuration
+EXEC_MAX_WELLS = {"quick": 32, "thorough": 48}  # R*C of executed plans (R <= 8, C <= 12)
 REL = 1e-9
 
 
@@ -53,7 +53,7 @@ REL = 1e-9
 # generation
 # ---------------------------------------------------------------------------------------------
 def n_cases(tier):
-    return 20000 if tier == "quick" else 1000000
+    return 14000 if tier == "quick" else 1000000
 
 
 def _gen_vmax(rng, C, small=False):
